@@ -339,6 +339,22 @@ def gen_schedule(rnd, nops, cfg, faults=0, snaps=False, small_cache=False, reads
     return "TRACE %s | %s" % (cfg, " ; ".join(items)), st
 
 
+def failed_rotation_cases(rnd, n, tail):
+    """schedules in which the creation of the next chunk file fails on the caller thread (disk
+    full) while journalled bytes are pending; `tail` = items appended after the recovery writes"""
+    out = []
+    for j in range(n):
+        recs = rnd.choice([4, 5, 6])              # the head snapshot counts: recs - 1 entries fill a chunk
+        cfg = "100000 1073741824 %d 1073741824 1 64" % recs
+        items = ["A 1 0 x00", "F 1", "wi"]
+        for i in range(1, recs - 2):
+            items.append("A 1 %d x%02x" % (i, i))
+        items += ["cfault create 1", "A 1 %d x77" % (recs - 2)]          # fills the chunk: the rotation fails
+        items += [rnd.choice(["F 1 ; wi", "F 1 ; w 1 ; wi", "F 0 ; wi ; F 1 ; wi"]), "A 1 %d x78" % (recs - 1), "F 1", "wi"]
+        out.append("TRACE %s | %s" % (cfg, " ; ".join(items + [t.replace("CFG", cfg) for t in tail])))
+    return out
+
+
 def run_C04(ctx):
     proof = core.proof_stage("C04")
     core.builds()
@@ -371,15 +387,7 @@ def run_C04(ctx):
     # fails: disk full) while journalled bytes are still pending. The model has no caller-side
     # I/O failure, so these traces are judged by the trace predicates alone: a later
     # callback may report success only if everything accepted before its flush is durable.
-    ccases = []
-    for j in range(ctx.scale(12, 80)):
-        recs = rnd.choice([4, 5, 6])              # the head snapshot counts: recs - 1 entries fill a chunk
-        items = ["A 1 0 x00", "F 1", "wi"]
-        for i in range(1, recs - 2):
-            items.append("A 1 %d x%02x" % (i, i))
-        items += ["cfault create 1", "A 1 %d x77" % (recs - 2)]          # fills the chunk: the rotation fails
-        items += [rnd.choice(["F 1 ; wi", "F 1 ; w 1 ; wi", "F 0 ; wi ; F 1 ; wi"]), "A 1 %d x78" % (recs - 1), "F 1", "wi", "G"]
-        ccases.append("TRACE 100000 1073741824 %d 1073741824 1 64 | %s" % (recs, " ; ".join(items)))
+    ccases = failed_rotation_cases(rnd, ctx.scale(12, 80), ["G"])
     clogs = run_traces(ccases, ctx.wd, "c04c")
     cviews, cbad = analyse(ctx, "C04", ccases, clogs, [True] * len(ccases))
     bad += cbad
@@ -424,8 +432,8 @@ def writes_of_case(case, log):
                 ents = t[1:]
                 for k in range(0, len(ents), 3):
                     out.append("A %s %s %s" % (ents[k], ents[k + 1], ents[k + 2]))
-            elif t[0] == "A" and e.startswith("c ret err"):
-                out.append(("PARTIAL", last))
+            elif t[0] == "A" and e.startswith("c ret err") and len(t) > 4:
+                out.append(("PARTIAL", last))          # a batch: its first entries may have been accepted
             last = None
     return out
 
@@ -650,6 +658,20 @@ def run_C08(ctx):
         items += [rnd.choice(["w 1", "w 2", "w 3"]), "snap"] * rnd.randint(1, 5) + ["wi", "snap", "G"]
         cases.append("TRACE %s | %s" % (cfg, " ; ".join(items)))
         ctx.count("postponed_removal_schedules")
+    # a chunk closed since the last successful flush, a purge, and a flush during which the
+    # sync of that just-closed chunk fails: the removal must wait (the purge record is not durable)
+    for j in range(ctx.scale(12, 80)):
+        R = rnd.choice([3, 4, 5])
+        cfg = "100000 1073741824 %d 1073741824 1 64" % R
+        k = rnd.choice([2, 3])
+        n1 = k * (R - 1)
+        items = ["A 1 %d x%02x" % (i, i) for i in range(n1)] + ["F 1", "wi"]
+        n2 = n1 + (R - 1)                                  # one more chunk gets closed, unflushed
+        items += ["A 1 %d x%02x" % (i, i) for i in range(n1, n2)]
+        items += ["P 1 %d" % rnd.randint(R - 2, n1 - 1), "fault sync %d" % rnd.choice([0, 0, 1]), "F 1", "snap"]
+        items += [rnd.choice(["w 1", "w 2", "w 3"]), "snap"] * rnd.randint(1, 4) + ["wi", "snap", "F 1", "wi", "snap", "G"]
+        cases.append("TRACE %s | %s" % (cfg, " ; ".join(items)))
+        ctx.count("failed_sync_of_closed_chunk_schedules")
     # the purge record itself fills the open chunk (the rotation hands the bytes to the worker, a
     # following flush has nothing pending), flushed with and without a callback
     for j in range(ctx.scale(12, 80)):
